@@ -49,6 +49,12 @@ CLAIMED = {
  "C09": dict(tech="TLC on Replay.tla (TxnMode) + TLC trace validation of real transactional runs with crash enumeration",
              text="For every source MULTI/EXEC group the target must apply all of its data commands in one EXEC block that also carries a position >= the group's EXEC; no stored or returned resume position may lie inside a group, at any crash point.",
              note="Standalone target with real MULTI/EXEC semantics modelled in TLA+.", ref="4 C09"),
+ "C14": dict(tech="TLA+ model of lanes, commit journal, frontier coordinator, crash and start-up recovery (BisyncFrontier.tla) model-checked with TLC + TLC trace validation (TraceBisync.tla) of the real bidirectional replay with crash enumeration on standalone and cluster fakes",
+             text="TLC explores every completion order across lanes, every stop point (also between frontier save and each journal deletion, and inside start-up recovery) and repeated restarts within the bound. The real sendAofBisync / bisyncStartPoint run in sync, pipeline and parallel mode against a standalone fake and a two-node cluster fake (hash-tagged keys, one lane stalled so that the timer flushes the frontier below later committed units); the target dies after every k-th write request, restarts once, twice and twice without traffic; TLC judges every EXEC block (unit whole, with marker and recovery record), every stored frontier, every resume point (unit end, nothing uncommitted before it, never backwards, sync mode exact) and that a start on a healthy target does not fail.",
+             note="Lane completion order on the real code is steered by delays, not enumerated; the D layer enumerates it.", ref="4 C14"),
+ "C18": dict(tech="TLA+ model of the unit admission scan over the definitional HASH_SLOT (UnitRoute.tla) model-checked with TLC, every enumerated unit replayed into the real code + TLC trace validation (TraceBisync.tla) against a slot-checking cluster fake",
+             text="TLC checks admit <=> (all keys determinable and one slot), nothing sent on refusal and single-slot transaction shape for every unit of 1-2 commands x 1-2 keys over nine key shapes (tags, empty tag, two tags, nested braces, non-ASCII bytes) and prints each unit with its verdict; each is fed through the real sendAofBisync against a two-node cluster fake. TLC then judges the raw requests: every MULTI/EXEC addresses one slot by an independent HASH_SLOT (business keys, marker, records, index), nothing of an unroutable unit is sent and Send returns an error, a routable unit is committed and not refused. Generated streams add seven kinds of unroutable last units and tags with UTF-8 / non-UTF-8 bytes.",
+             note="No filter configured (filter-reduced transactions not covered); unknown commands always end in refusal because the fake's COMMAND GETKEYS reports no keys.", ref="4 C18"),
 }
 
 PENDING = {
